@@ -39,8 +39,8 @@ func main() {
 	r.Assume("schema: p(id,v,u; UNIQUE u, KEY v) ← c(pid → p ON DELETE/UPDATE CASCADE; CHECK w<100; NOT NULL w; KEY pid, KEY w), r(pid → p RESTRICT), g(x TINYINT, y; BEFORE INSERT SIGNAL trigger, AFTER INSERT/UPDATE triggers writing log), src (INSERT…SELECT source)")
 	r.Assume("auto-increment counters and LAST_INSERT_ID are not part of the fingerprint")
 	r.Assume("the state is re-created from the recorded DDL+data script for every run; determinism of that rebuild is checked by comparing the pre-statement fingerprints of all runs of a case")
-	nInj := r.N(70, 1400)
-	nNat := r.N(50, 900)
+	nInj := r.N(70, 700)
+	nNat := r.N(50, 450)
 	if v := os.Getenv("C15_N"); v != "" {
 		fmt.Sscan(v, &nInj)
 		nNat = nInj
